@@ -202,6 +202,11 @@ def main():
     a, rep, replay = parse(PROP)
     rep.assumptions = ["writing real zarr/netCDF files is impossible here (no engine installed): the three in-memory routes named in the statement are executed",
                        "attribute dictionaries themselves are not compared after a model round trip (not claimed by the statement), only parameters and answers"]
+    if replay is not None and replay["scenario"].get("kind") == "lifecycle_path":
+        from .. import liferun as _lr
+        _lr.replay_path(rep, replay["scenario"], TAGS)
+        rep.extra["distinct_nontrivial"] = 2
+        return common.finish(rep)
     if replay is not None and replay["scenario"].get("kind") == "scenario":
         sc = replay["scenario"]
         fn = eval_codec if "val" in sc["scenario"] else eval_class
